@@ -58,7 +58,7 @@ func TestSentinelsThroughServer(t *testing.T) {
 	}
 	defer k.Close()
 	rng := run.Rand("server-sentinel")
-	for round := 0; round < run.Pick(12, 200); round++ {
+	for round := 0; round < run.Pick(40, 200); round++ {
 		synctest.Test(t, func(t *testing.T) {
 			for _, m := range k.Coll.Maps {
 				if m.Type() == ebpf.Hash {
